@@ -128,6 +128,45 @@ func pathVariableSymbols(q *cypher.RegularQuery) map[string]bool {
 		}
 	}
 	walk(reflect.ValueOf(q), map[uintptr]bool{}, 0)
+	// aliases of a path (`WITH p AS x`) are path-typed bindings too
+	typItem := reflect.TypeOf((*cypher.ProjectionItem)(nil))
+	for changed := true; changed; {
+		changed = false
+		var walkItems func(v reflect.Value, seen map[uintptr]bool, depth int)
+		walkItems = func(v reflect.Value, seen map[uintptr]bool, depth int) {
+			if !v.IsValid() || depth > 500 {
+				return
+			}
+			switch v.Kind() {
+			case reflect.Pointer:
+				if v.IsNil() || seen[v.Pointer()] {
+					return
+				}
+				seen[v.Pointer()] = true
+				if v.Type() == typItem {
+					it := (*cypher.ProjectionItem)(v.UnsafePointer())
+					if src, isVar := it.Expression.(*cypher.Variable); isVar && src != nil && it.Alias != nil && out[src.Symbol] && !out[it.Alias.Symbol] {
+						out[it.Alias.Symbol] = true
+						changed = true
+					}
+				}
+				walkItems(v.Elem(), seen, depth+1)
+			case reflect.Interface:
+				if !v.IsNil() {
+					walkItems(v.Elem(), seen, depth+1)
+				}
+			case reflect.Struct:
+				for i := 0; i < v.NumField(); i++ {
+					walkItems(v.Field(i), seen, depth+1)
+				}
+			case reflect.Slice, reflect.Array:
+				for i := 0; i < v.Len(); i++ {
+					walkItems(v.Index(i), seen, depth+1)
+				}
+			}
+		}
+		walkItems(reflect.ValueOf(q), map[uintptr]bool{}, 0)
+	}
 	return out
 }
 
@@ -292,7 +331,7 @@ func translateOutcome(q *cypher.RegularQuery, mapper pgsql.KindMapper, params ma
 var (
 	genNodeKinds = []string{"NodeKind1", "NodeKind2", "User", "Group", "Computer"}
 	genEdgeKinds = []string{"EdgeKind1", "EdgeKind2", "MemberOf", "AdminTo"}
-	xlGenProps     = []string{"name", "value", "objectid", "enabled", "arr", "count", "system_tags"}
+	xlGenProps   = []string{"name", "value", "objectid", "enabled", "arr", "count", "system_tags"}
 )
 
 type genVar struct {
